@@ -527,6 +527,9 @@ def run_scenarios(chk, pid, scenarios, stream="neg"):
         mt = model[i].split(" ") if model is not None else None
         if mt is not None:
             mt = [t for t in mt if t]
+            if mt and mt[-1].startswith("CHK="):
+                info["model_checks"] = mt[-1][4:]
+                mt = mt[:-1]
             chk.traces_validated += 1
             if mt != toks:
                 chk.disagree(stream, {"label": sc.label, "sim": sim_lines[i], "model_in": sc.model_line()}, " ".join(toks), " ".join(mt))
